@@ -2,6 +2,7 @@ package checks
 
 import (
 	"fmt"
+	"pgregory.net/rapid"
 	"strings"
 
 	"github.com/antchfx/xpath"
@@ -284,4 +285,25 @@ func sweepContexts(l *harness.Live) *harness.Failure {
 		}
 	}
 	return nil
+}
+
+// renderDrawn spells an expression: the canonical spelling four times out of six, the
+// compact one (no white space the token rules do not require: a|b, a=1, a[b]) or one
+// with white space drawn for every token boundary otherwise. The value of an expression
+// does not depend on its optional white space (C10), so every differential check may
+// present its expressions in any of these spellings.
+func renderDrawn(rt *rapid.T, e xast.Expr) string {
+	switch rapid.IntRange(0, 5).Draw(rt, "spelling") {
+	case 4:
+		return xast.Join(xast.Tokens(e), nil)
+	case 5:
+		toks := xast.Tokens(e)
+		pool := []string{"", "", " ", "\t", "\n ", "  "}
+		seps := make([]string, len(toks))
+		for i := range seps {
+			seps[i] = rapid.SampledFrom(pool).Draw(rt, "ws")
+		}
+		return xast.Join(toks, func(i int) string { return seps[i] })
+	}
+	return xast.Render(e)
 }
